@@ -5,8 +5,8 @@ from .sqlgen import query_sql
 
 
 def mk_case(doc, q, mode="seq", wrapped=False, pg=False, arr=False, consts=None, sql=None, tag=None,
-            order_keys=None, source_rows=None, num_kind=None, vars=None):
-    return {"num_kind": num_kind, "vars": vars, "doc": doc, "q": q, "mode": mode, "wrapped": wrapped, "pg": pg, "arr": arr, "consts": consts,
+            order_keys=None, source_rows=None, num_kind=None, vars=None, tables=None):
+    return {"num_kind": num_kind, "vars": vars, "tables": tables, "doc": doc, "q": q, "mode": mode, "wrapped": wrapped, "pg": pg, "arr": arr, "consts": consts,
             "sql": sql if sql is not None else query_sql(q), "tag": tag, "order_keys": order_keys,
             "source_rows": source_rows}
 
@@ -18,6 +18,8 @@ def go_req(c):
         r["numKind"] = c["num_kind"]
     if c.get("vars") is not None:
         r["vars"] = enc_val(c["vars"])
+    if c.get("tables"):
+        r["tables"] = c["tables"]
     return r
 
 
@@ -131,7 +133,7 @@ def run_cases(chk, cases, nontrivial=None, known_switch_ids=None, label=""):
     for c, g, l, detail in mism[:3]:
         chk.add_violation("correspondence", {
             "sql": c["sql"], "doc": c["doc"], "q": c["q"], "opts": {k: c[k] for k in ("wrapped", "pg", "arr")},
-            "consts": c["consts"], "mode": c["mode"], "order_keys": c.get("order_keys"), "num_kind": c.get("num_kind"), "vars": c.get("vars"),
+            "consts": c["consts"], "mode": c["mode"], "order_keys": c.get("order_keys"), "num_kind": c.get("num_kind"), "vars": c.get("vars"), "tables": c.get("tables"),
             "detail": detail, "impl": g, "model": l})
     if len(mism) > 3:
         chk.count(label + "further-mismatches", len(mism) - 3)
